@@ -961,6 +961,15 @@ func c18Fixed(env *core.Env, totality bool) {
 		{"Delete(absent nested element)", func(r fhir.Resource) error { return patch.Delete(r, "Patient.name[5].family") }, false, true},
 		{"Delete(absent via where)", func(r fhir.Resource) error { return patch.Delete(r, "Patient.name.where(family = 'Nobody')") }, false, true},
 		{"Delete(wrong root)", func(r fhir.Resource) error { return patch.Delete(r, "Observation.status") }, false, true},
+		// paths that go on for several steps after a step that found nothing
+		{"Delete(far below absent)", func(r fhir.Resource) error { return patch.Delete(r, "Patient.photo.data.extension.value") }, false, true},
+		{"Delete(far below absent 2)", func(r fhir.Resource) error { return patch.Delete(r, "Patient.link.other.identifier.value.extension") }, false, true},
+		{"Delete(far below wrong root)", func(r fhir.Resource) error { return patch.Delete(r, "Observation.code.coding.system") }, false, true},
+		{"Delete(far below filtered)", func(r fhir.Resource) error { return patch.Delete(r, "Patient.name.where(family = 'Nobody').given.extension.value") }, false, true},
+		{"Replace(far below absent)", func(r fhir.Resource) error { return patch.Replace(r, "Patient.photo.data.extension.value", hn) }, false, false},
+		{"Insert(far below absent)", func(r fhir.Resource) error { return patch.Insert(r, "Patient.link.other.identifier.value.extension", hn, 0) }, false, false},
+		{"Add(far below absent)", func(r fhir.Resource) error { return patch.Add(r, "Patient.photo.data.extension.value", "id", &dtpb.String{Value: "x"}, &patch.Options{}) }, false, false},
+		{"Replace(far below wrong root)", func(r fhir.Resource) error { return patch.Replace(r, "Observation.code.coding.system", hn) }, false, false},
 		{"Delete(non-element 1)", func(r fhir.Resource) error { return patch.Delete(r, "1") }, false, false},
 		{"Delete(syntax error)", func(r fhir.Resource) error { return patch.Delete(r, "Patient.name[") }, false, false},
 		{"Delete(multi)", func(r fhir.Resource) error { return patch.Delete(r, "Patient.name") }, false, false},
